@@ -6,8 +6,18 @@ P = "paramiko.pkey.PKey."
 TARGETS = ["paramiko.pkey._unpad_openssh", P + "_read_private_key", P + "_read_private_key_openssh"]
 TARGETS += [(P + "_uint32_cstruct_unpack", "format-" + f, pkeyfile.own_cstruct(f)) for f in ("sssur", "ss", "su", "uusr")]
 TARGETS += ["paramiko.ed25519key.Ed25519Key.__init__::part[parse-key-file]"]
+# (the text-mode read inside _read_private_key is converted there - own body above; the chain over msg / filename / file_obj
+#  around it adds nothing that escapes)
+TARGETS += ["paramiko.ed25519key.Ed25519Key.__init__::part[read-key-file]"]
 TARGETS += ["paramiko.rsakey.RSAKey._decode_key", (P + "_read_private_key_file", "text-mode-read", pkeyfile.own_read_file())]
-REPLAY = {"*": "c37.replay_keyfiles", "_decode_key": "c37.decode_wrong_material", "_read_private_key_file": "c37.decode_wrong_material"}
+TARGETS += [(P + "_read_private_key_pem::part[decrypt]", "envelope", pkeyfile.own_pem_decrypt())]
+BOUNDED = [("c37.encrypted_and_odd_files", "files damaged in the encryption envelope, loaded with a password (DEK-Info salt not hex / "
+            "wrong size, ciphertext not a whole number of blocks), key files and caller-supplied text file objects over bytes that are "
+            "not text, OpenSSH-format Ed25519 keys naming an AEAD cipher (Ed25519Key._parse_signing_key_data is an assumed contract)"),
+           ("c37.body_with_wide_characters", "non-ASCII characters inside the base64 body, 5 bundled key files x 4 characters x 4 "
+            "places x both entry points")]
+REPLAY = {"*": "c37.replay_keyfiles", "_read_private_key_pem": "c37.body_with_wide_characters", "Ed25519Key": "c37.encrypted_and_odd_files",
+          "_read_private_key_openssh": "c37.body_with_wide_characters", "_decode_key": "c37.decode_wrong_material", "_read_private_key_file": "c37.decode_wrong_material"}
 MAX_PATHS = 20000
 
 
